@@ -613,8 +613,10 @@ func runC02(c *mon.Ctx) {
 			k.Class("fonts:empty-table")
 		}
 		scaler := fn.file.Scaler
-		if r.IntN(24) == 0 {
-			scaler = []uint32{0x00010000, 0x4F54544F, 0x74727565}[r.IntN(3)]
+		if r.IntN(12) == 0 {
+			// the version tags an sfnt file can start with (TrueType, OpenType/CFF,
+			// Apple's 'true' and 'typ1', a collection, WOFF) and two that mean nothing
+			scaler = []uint32{0x00010000, 0x4F54544F, 0x74727565, 0x74797031, 0x74746366, 0x774F4646, 0x00020000, 0}[r.IntN(8)]
 			desc += ", scaler type changed"
 		}
 		b := c02sfnt(scaler, tabs)
